@@ -292,6 +292,20 @@ def c05_struct():
     out.append(f"{{ {pre} for (i = 0; i < 0; i++) {{ RxV = 77; }} RyV = i; }}")
     out.append(f"{{ {pre} for (i = 5; i < 3; i++) {{ RxV = 77; }} RyV = i; }}")
     out.append(f"{{ {pre} int x; x = 3; {{ int z = x + n; RxV = z; }} {{ ; ; }} RyV = x; }}")
+    # conditions of every width and signedness in every condition position
+    for (t, w, _) in TYPES:
+        dc = decl(t, w, "c", "u")
+        out.append(f"{{ {dc} if (c) {{ RxV = 1; }} else {{ RxV = 2; }} }}")
+        out.append(f"{{ {dc} RxV = c ? 1 : 2; }}")
+        out.append(f"{{ {dc} RxV = !c; }}")
+        out.append(f"{{ {dc} RxV = (c && RtV) + (c || RtV) * 2; }}")
+        out.append(f"{{ {dc} for (i = 0; c && (i < 2); i++) {{ RxV = RxV + 1; }} }}")
+        out.append(f"{{ {dc} if (c >> {w - 1}) {{ RxV = 1; }} }}")
+        out.append(f"{{ {dc} if (c & ({'1ULL' if w == 64 else '1'} << {w - 1})) {{ RxV = 1; }} else {{ RxV = 2; }} }}")
+    out.append("{ if (RssV) { RxV = 1; } else { RxV = 2; } }")
+    out.append("{ if (RssV & 0xffffffff00000000ULL) { RxV = 1; } else { RxV = 2; } }")
+    out.append("{ RxV = (RssV << 32) ? 1 : 2; }")
+    out.append("{ for (i = 0; (RssV >> 33) && (i < 1); i++) { RxV = 7; } }")
     out.append(f"{{ {pre} RxV = RyV = n; }}")
     out.append(f"{{ {pre} RxV = RyV = RxV + 1; }}")
     out.append(f"{{ {pre} n = RxV = n + RxV; RyV = n; }}")
